@@ -467,8 +467,12 @@ func (g *gen) randFloat() starlark.Float {
 			case 1:
 				f = math.Nextafter(f, 0)
 			}
-		case 3: // short decimal
-			f, _ = strconv.ParseFloat(fmt.Sprintf("%de%d", r.Intn(100000), r.Intn(60)-30), 64)
+		case 3: // short decimal, or full-precision value of moderate magnitude (printed without exponent)
+			if r.Bool() {
+				f, _ = strconv.ParseFloat(fmt.Sprintf("%de%d", r.Intn(100000), r.Intn(60)-30), 64)
+			} else {
+				f = math.Ldexp(1+float64(r.Uint64()>>12)/(1<<52), r.Intn(41)-17)
+			}
 		default:
 			f = math.Float64frombits(r.Uint64())
 		}
@@ -589,6 +593,24 @@ func systematicLeaves() []starlark.Value {
 	}
 	for _, f := range floatPool {
 		leaves = append(leaves, starlark.Float(f), starlark.Float(-f))
+	}
+	// floats printed in positional notation with full precision (magnitude between
+	// 1e-5 and 1e7, random 53-bit mantissa): text of 15-17 significant digits
+	// without exponent, the other main path of float printing and scanning
+	fr := hx.NewRand(0xC15)
+	for i := 0; i < 2500; i++ {
+		f := math.Ldexp(1+float64(fr.Uint64()>>12)/(1<<52), fr.Intn(41)-17)
+		if i%2 == 1 {
+			f = -f
+		}
+		leaves = append(leaves, starlark.Float(f))
+	}
+	// and short decimals d.ddd with 1..17 digits
+	for i := 0; i < 1500; i++ {
+		nd := 1 + fr.Intn(17)
+		m := fr.Uint64() % uint64(math.Pow10(nd))
+		f, _ := strconv.ParseFloat(fmt.Sprintf("%de-%d", m, fr.Intn(nd+3)), 64)
+		leaves = append(leaves, starlark.Float(f))
 	}
 	for _, s := range stringClasses(false) {
 		leaves = append(leaves, starlark.String(s))
